@@ -24,6 +24,8 @@ REACTIONS = {
     # coefficient suffix and both can be parity-flipped (eta(omega -> gamma pi0) = -1), the product of two prefactors is +1
     "chic0_omega_omega": dict(initial_state="chi(c0)(1P)", final_state=["gamma", "pi0", "gamma", "pi0"], allowed_intermediate_particles=["omega(782)"],
                               allowed_interaction_types=["strong", "EM"]),
+    # two identical spin-1 particles leaving the SAME node, with equal and with different projections (J = 2: lambda = 0, +-2)
+    "chic2_gamma_gamma": dict(initial_state="chi(c2)(1P)", final_state=["gamma", "gamma"], allowed_interaction_types=["EM"]),
     # a massless spin-1/2 state next to a massive spin-1 state (axis-angle alignment: the flag `no_zero_spin` must follow the ROTATED state)
     "tau_nu_rho": dict(initial_state="tau-", final_state=["nu(tau)", "rho(770)-"], allowed_interaction_types=["weak"]),
     "tau_nu_rho0_pi": dict(initial_state="tau-", final_state=["nu(tau)", "rho(770)0", "pi-"], allowed_intermediate_particles=["a(1)(1260)-"],
